@@ -397,6 +397,11 @@ def rule_U1(ctx):
             found.add(f.name)
             if f.name in want:
                 ctx.ok(f.name, "splice primitive called", loc=f.loc(c))
+            elif f.file == "lbuf.c" and only_called_from(prog, f.name, {"lbuf_undo", "lbuf_redo"}):
+                # a private helper of the log replay (the replay obligations are U3's)
+                found.add("lbuf_undo")
+                found.add("lbuf_redo")
+                ctx.ok(f.name, "splice primitive called from a helper of undo/redo only", loc=f.loc(c))
             else:
                 # a new caller is fine only when it logs first (checked like U2)
                 if _logged_splice(f, c):
